@@ -9,6 +9,7 @@ import (
 	"encoding/hex"
 	"encoding/json"
 	"fmt"
+	stdhash "hash"
 	"os"
 	"path/filepath"
 	"slices"
@@ -194,6 +195,8 @@ func (a *Account) Pub() []byte { return a.Priv.PublicKey().Bytes() }
 
 type World struct {
 	NoScriptOverride bool // Freeze leaves the deployed executables alone (see ScriptOverride)
+	LogReads         bool // keep a digest of every read-back answer (see Read)
+	readSum          stdhash.Hash
 	T                *fakeT
 	N                int
 	BC               *core.Blockchain
